@@ -177,14 +177,14 @@ Theorem C03_lattice_models_agree :
   forall (L0 : plat) (len : nat) (ns : list node), round_wf nl nr data (len, ns) = true ->
     exists L1, preset L0 len = POk L1 /\
     match minsert_all ovf (mconn nl nr data) (mreset len) ns with
-    | Ok (LM, cs) =>
-        exists LP, pinsert_all dbg ovf nl nr data L1 ns = POk (LP, cs) /\ Rel LP LM /\ Inv nl len nil LP /\
+    | LatticeM.Ok (LM, cs) =>
+        exists LP, pinsert_all dbg ovf nl nr data L1 ns = POk (LP, cs) /\ LatticePM.Rel LP LM /\ LatticePProofs.Inv nl len nil LP /\
           match mconnect_eos ovf (mconn nl nr data) LM with
-          | Ok e => exists LP', pconnect_eos dbg ovf nl nr data LP = POk (LP', is_some e)
+          | LatticeM.Ok e => exists LP', pconnect_eos dbg ovf nl nr data LP = POk (LP', is_some e)
                                 /\ (forall r i c, e = Some (r, i, c) -> p_eos LP' = Some ((r, i), c))
-          | Panic => pconnect_eos dbg ovf nl nr data LP = PPanic S_add_overflow
+          | LatticeM.Panic => pconnect_eos dbg ovf nl nr data LP = PPanic S_add_overflow
           end
-    | Panic => pinsert_all dbg ovf nl nr data L1 ns = PPanic S_add_overflow
+    | LatticeM.Panic => pinsert_all dbg ovf nl nr data L1 ns = PPanic S_add_overflow
     end.
 Proof. exact models_agree. Qed.
 Print Assumptions C03_lattice_models_agree.
